@@ -65,11 +65,14 @@ CLAIMED = {
          "Lean kernel + three standard axioms; harness/driver; expat and boost::lexical_cast external; list-section merge and 'nothing else' tied by correspondence only (partial).",
          "6/C11"),
  "C16": ("Lean 4 proof (the FIFO-of-edges breadth-first labelling assigns every reachable vertex its shortest-path hop count and labels nothing else, "
-         "for every graph and every adjacency order, by a queue invariant; explored set = reachable set; minimality) + exhaustive correspondence on all small graphs",
-         "Theorems cover distance labelling and, through the explored set, component decomposition and single-network detection. Label independence of the "
-         "structure id, separation by attributes and reduce/expand losslessness are decided by correspondence only: every labelled graph up to 5 vertices "
+         "for every graph and every adjacency order, by a queue invariant; termination by a potential; explored set = reachable set; components partition; "
+         "single-network detection; the structure id is invariant under every renumbering of the vertices, every insertion order and every adjacency order "
+         "(dist_iso, structId_iso_invariant, structIdStr_iso_invariant)) + exhaustive correspondence on all small graphs, the real findStructureId string compared with the model",
+         "Theorems cover distance labelling, component decomposition, single-network detection and the label independence of the structure id (model of "
+         "findStructureId / Graph::calcId_ / GraphNode string ids; equal ids imply equal label multisets at the level of the sorted key lists). Separation at the level "
+         "of the concatenated string and reduce/expand losslessness are decided by correspondence only: every labelled graph up to 5 vertices "
          "(7 in the thorough tier) plus random larger graphs are pushed through the real Graph/ReducedGraph/BeadStructure code and compared with the model and an independent spec.",
-         "Lean kernel + three standard axioms; harness/driver; PARTIAL: structure-id and reduce/expand clauses have no theorem.",
+         "Lean kernel + three standard axioms; harness/driver; PARTIAL: the reduce/expand clause and string-level separation have no theorem.",
          "6/C16"),
  "C05": ("Lean 4 proof by invariants over all reachable states of a transition-system model of ProcessData / Worker::Run for every worker count, file "
          "length, --nframes budget and schedule (reads and merges in file order, reader and merge mutual exclusion, deadlock freedom, bounded steps, final "
@@ -87,7 +90,7 @@ CLAIMED = {
          "assigned_once / result_kept hold for all P, c, J and all crash-free interleavings with the lock mode the translator reads from "
          "progressobserver.cc; the model is tied to the working tree by running 1..4 real processes on one job file, interleaved and killed at the hook "
          "points, replaying every trace on the model and judging assigned-once, nothing-lost, results-kept, lock exclusion and one-complete-copy on the traces.",
-         "Lean kernel + three standard axioms; hooks (commits 8d4c01644, 541b02a2b); fcntl semantics as observed; restart patterns / maxjobs / history: second model Votca.C10R with step-level theorems, whole runs tied by replay and trace-level clauses (no invariant proof there); crash transitions judged by trace predicates only.",
+         "Lean kernel + three standard axioms; hooks (commits 8d4c01644, 541b02a2b); fcntl semantics as observed; restart patterns / maxjobs / history: second model Votca.C10R with step-level theorems and two whole-run invariants over every reachable state (writes only under the lock; every output / error text names a process that executed that job), the rest of the whole-run behaviour tied by replay and trace-level clauses; crash transitions judged by trace predicates only.",
          "6/C10"),
  "C12": ("Lean 4 proof of exact identities over Q about basis functions regenerated from cubicspline.cc (values at knots, continuity, derivative jump = "
          "row residual of the linear system, natural/periodic boundary rows, line exactness, superposition, Taylor identities = derivative consistency) "
